@@ -26,11 +26,14 @@ STATE_MEASURE = "distinct (metric, online_scaling, num_pcs, phase, state) tuples
 WHITE_BOX = ["PCACD._change_score (score history; decisions and num_pcs are compared without it)"]
 
 
+HEAVY = ["marathon", "long_step"]
+
+
 def scenarios(tier):
     k = 1 if tier == "quick" else 8
-    # "marathon" (thorough only): one epoch with thousands of checks (anything that saturates or is trimmed after ~1000
+    # "marathon" (quick: ~1500 checks, thorough: ~4000): one epoch with thousands of checks (anything that saturates or is trimmed after ~1000
     # Page-Hinkley updates only shows there)
-    return [("stream", 300 * k), ("repeat", 80 * k), ("long_step", 8 * k)] + ([("marathon", 6)] if tier == "thorough" else [])
+    return [("stream", 300 * k), ("repeat", 80 * k), ("long_step", 8 * k), ("marathon", 3 if tier == "quick" else 8)]
 
 
 def gen(rng, scenario, tier):
@@ -44,7 +47,7 @@ def gen(rng, scenario, tier):
     if scenario == "marathon":
         # window 60: Page-Hinkley threshold 1 (no alarm on a stationary stream for a long time), a check on every sample
         cfg.update(window_size=60, sample_period=0.017, divergence_metric="intersection", delta=rng.choice([0.15, 0.2]), online_scaling=rng.random() < 0.5)
-        rows, drifts = workload.mv_stream(rng, rng.randint(3500, 4500), d, drift_rate=0.0)
+        rows, drifts = workload.mv_stream(rng, rng.randint(3500, 4500) if tier == "thorough" else rng.randint(1700, 2000), d, drift_rate=0.0)
         # a slowly growing shift in the last fifth: the alarm time then depends on the statistics of the whole long epoch
         n0 = int(len(rows) * 0.8)
         sd0 = max(1e-9, float(np.std([r[0] for r in rows[:200]])))
